@@ -80,26 +80,30 @@ def enumerate_configs(ctx):
     return cfgs
 
 
-def pick_quick(cfgs, seed):
-    """quick tier: three fixed NumPy sweeps + one seeded, one Dask sweep (float64: astype(float) is a no-op there) + for
-    the functions whose cast target is float32 also float32 on Dask.  Everything else is the thorough tier's."""
+def pick_quick(cfgs, seed, meta):
+    """quick tier.  Per backend EVERY function gets a C-contiguous, all-finite, unsorted float64 raster and an all-finite
+    writable int32/C raster (in-place sorts / cumulative ops / normalisations only bite there); the functions whose inputs
+    normally carry NaN/inf additionally get the NaN-bearing float64/C raster (same JIT specialisation).  NumPy also gets
+    float32/C (NaN-bearing where the function takes NaN) for every function and one seeded non-C-contiguous
+    (dtype, layout) for the functions that are cheap to JIT."""
     rest = [(d, l) for d in ["int8", "int16", "int64", "uint8", "uint16", "uint32", "uint64", "float64", "float32", "int32"]
-            for l in ["C", "F", "strided", "readonly"]]
-    fixed_np = {("float32", "C"), ("float64", "strided"), ("int32", "readonly")}
-    fixed_da = {("float64", "C")}
-    rest = [x for x in rest if x not in fixed_np]
+            for l in ["F", "strided", "readonly"]]
     rnd = random.Random(seed * 101 + 10)
     extra = rnd.choice(rest)
-    full = {("float32", "C"), ("float64", "strided")}      # every function; the other sweeps skip the JIT-heavy ones
     heavy = {f for f, c in COST.items() if c >= 2.5} | {"viewshed"}
     sel = []
     for c in cfgs:
         key = (c["dtype"], c["layout"])
-        if c["backend"] == "numpy" and (key in fixed_np or key == extra):
-            if key in full or c["f"] not in heavy:
-                sel.append(c)
-        elif c["backend"] == "dask" and key in fixed_da and c["f"] not in heavy:
-            sel.append(c)
+        if key == ("float64", "C"):
+            sel.append(dict(c, finite=True))
+            if meta[c["f"]]["nan_inputs"]:
+                sel.append(dict(c))
+        elif key == ("int32", "C"):
+            sel.append(dict(c))
+        elif c["backend"] == "numpy" and key == ("float32", "C"):
+            sel.append(dict(c))
+        elif c["backend"] == "numpy" and key == extra and c["f"] not in heavy:
+            sel.append(dict(c))
     return sel, extra
 
 
@@ -108,7 +112,8 @@ def config_jobs(cfgs, variants=None):
     for i, c in enumerate(cfgs):
         jobs.append({"sid": i, "tag": "config", "cfgrec": c,
                      "calls": [{"f": c["f"], "variant": (variants or {}).get(c["f"], 0) if not isinstance(variants, int) else variants,
-                                "args": None, "dtype": c["dtype"], "layout": c["layout"], "backend": c["backend"]}]})
+                                "args": None, "dtype": c["dtype"], "layout": c["layout"], "backend": c["backend"],
+                                "finite": bool(c.get("finite"))}]})
     return jobs
 
 
@@ -309,15 +314,17 @@ def replay_part(ctx, rng, focus):
     allcfgs = enumerate_configs(ctx)
     allcfgs = [c for c in allcfgs if c["f"] not in ("bump",) and (not focus or c["f"] in focus)]
     if ctx.tier == "thorough":
-        sel, extra = allcfgs, None
+        # everything, plus all-finite float rasters on the C layout for every function
+        sel = allcfgs + [dict(c, finite=True) for c in allcfgs if c["layout"] == "C" and c["dtype"] in ("float32", "float64")]
+        extra = None
     else:
-        sel, extra = pick_quick(allcfgs, ctx.seed)
-        ctx.note("quick tier: sweeps float32/C, float64/strided (all functions), int32/readonly + seeded %s (without the "
-                 "JIT-heavy functions) on numpy; float64/C (without them) on dask" % (extra,))
+        sel, extra = pick_quick(allcfgs, ctx.seed, meta)
+        ctx.note("quick tier: every function on float64/C all-finite (+ NaN-bearing where it takes NaN) and int32/C on both "
+                 "backends; float32/C on numpy; seeded %s on numpy without the JIT-heavy functions" % (extra,))
     jobs = config_jobs(sel)
     ncfg = len(jobs)
     # other parameter variants of every function (quick: float64/C; thorough: four configurations)
-    vsel = (("float64", "strided"),) if ctx.tier != "thorough" else (("float32", "C"), ("float64", "F"), ("int16", "strided"), ("float64", "C"))
+    vsel = (("float64", "C"),) if ctx.tier != "thorough" else (("float32", "C"), ("float64", "F"), ("int16", "strided"), ("float64", "C"))
     for c in allcfgs:
         if (c["dtype"], c["layout"]) in vsel and c["supported"]:
             if ctx.tier != "thorough" and c["backend"] != "numpy":
